@@ -155,6 +155,7 @@ void vterm_automate_newdata(struct vterm_automate *vterm, int16_t input_c)
                 break;
 
             case READLINE_NOTHING:
+            case READLINE_OVERFLOW:
                 break;
 
             case READLINE_UPDATELINE:
